@@ -453,7 +453,7 @@ impl Prop for C09 {
 
     fn plan(&self, tier: Tier) -> Plan {
         let mut p = Plan::new(match tier {
-            Tier::Quick => 60,
+            Tier::Quick => 160,
             Tier::Thorough => 1500,
         });
         p.workers = 12;
